@@ -791,3 +791,83 @@ class Engine:
                 self.stats.aborted += 1
             results.append(self.cur)
         return results
+
+
+# ----------------------------------------------------------------------------- concrete re-run
+class AssumptionFailed(EngineAbort):
+    """a concrete re-run was given inputs that violate an assumption of the harness"""
+
+
+class ReplayEngine:
+    """Stand-in for Engine that feeds concrete values (a model extracted from a symbolic path, or a counterexample
+    file) to the same harness function.  Used for the per-path cross validation and for native replays: with concrete
+    inputs no proxy is ever created, so the real code runs on real ints/bytes."""
+
+    def __init__(self, inputs):
+        self.given = dict(inputs)
+        self.inputs = {}
+        self.failed = []
+        self.proved = 0
+        self.ticks = 0
+        self.uf_log = []
+        self.ackermann = {}
+        self.stats = Stats()
+
+    def _get(self, name, default):
+        v = self.given.get(name, default)
+        self.inputs[name] = v
+        return v
+
+    def sym_int(self, name, lo=None, hi=None, width=W):
+        v = int(self._get(name, lo if lo is not None else 0))
+        if (lo is not None and v < lo) or (hi is not None and v > hi):
+            raise AssumptionFailed(f'{name}={v} outside [{lo}, {hi}]')
+        return v
+
+    def sym_bytes(self, name, n, mutable=False):
+        v = self._get(name, '00' * n)
+        b = bytes.fromhex(v) if isinstance(v, str) else bytes(v)
+        if len(b) != n:
+            b = (b + bytes(n))[:n]
+        return bytearray(b) if mutable else b
+
+    def sym_bool(self, name):
+        return bool(self._get(name, False))
+
+    def sym_byte_terms(self, name, n):
+        raise Unsupported('uninterpreted function reached in a concrete re-run')
+
+    def assume(self, c):
+        if not bool(c):
+            raise AssumptionFailed('assumption violated by the concrete inputs')
+
+    def prove(self, cond, label):
+        if bool(cond):
+            self.proved += 1
+            return True
+        self.failed.append((label, dict(self.given)))
+        return False
+
+    def tick(self, n=1):
+        self.ticks += n
+
+    def branch(self, cond):
+        raise Unsupported('symbolic branch in a concrete re-run')
+
+    def concretize(self, v, lo, hi):
+        return int(v)
+
+    def fresh_name(self, base):
+        return base
+
+    def run(self, fn):
+        """-> (outcome, failed labels) ; engine is active so that shims keep working on concrete data"""
+        global _ENGINE
+        prev = _ENGINE
+        _ENGINE = self
+        try:
+            out = fn()
+        finally:
+            _ENGINE = prev
+        return out, [l for l, _ in self.failed]
+
